@@ -104,17 +104,49 @@ func init() {
 			it := d.(iface)
 			pt := it.t.Underlying().(*types.Pointer)
 			cell := it.v.(*value)
-			switch b := pt.Elem().Underlying().(type) {
-			case *types.Basic:
-				if b.Info()&types.IsInteger != 0 {
-					*cell = mkScalar(X.pinOr(X.fresh("scan", BV(kindWidth(b.Kind())))), b.Kind())
-					continue
-				}
+			if havocScanInto(pt.Elem(), cell) {
+				continue
 			}
 			panic(abortPath{"sql stub: Scan into unsupported type " + pt.Elem().String()})
 		}
 		return iface{}
 	}
+}
+
+// havocScanInto stores an arbitrary value of the destination type (tier-1 fault/answer schedules).
+func havocScanInto(t types.Type, cell *value) bool {
+	switch b := t.Underlying().(type) {
+	case *types.Basic:
+		if b.Info()&types.IsInteger != 0 {
+			// stated bound of the tier-1 stubs: scanned integers (counters, timestamps) lie in [0, 7] — loops
+			// driven by a scanned counter (drop_oldest eviction) stay bounded
+			w := kindWidth(b.Kind())
+			t := X.pinOr(X.fresh("scan", BV(w)))
+			X.addPC(BVCmp("bvule", t, BVConst(7, w)))
+			*cell = mkScalar(t, b.Kind())
+			return true
+		}
+		if b.Kind() == types.String {
+			*cell = []string{"leased", "queued", "m0"}[X.choose(3)]
+			return true
+		}
+	case *types.Struct:
+		// sql.NullInt64{Int64, Valid} / sql.NullString{String, Valid}
+		if b.NumFields() == 2 && b.Field(1).Name() == "Valid" {
+			var first value
+			if !havocScanInto(b.Field(0).Type(), &first) {
+				return false
+			}
+			*cell = structure{first, X.choose(2) == 1}
+			return true
+		}
+	case *types.Slice:
+		if eb, ok := b.Elem().Underlying().(*types.Basic); ok && eb.Kind() == types.Byte {
+			*cell = []value{uint8('p')}
+			return true
+		}
+	}
+	return false
 }
 
 // Lock-boundary scheduler: pending atomic steps of another thread may run at every lock acquisition.
@@ -247,15 +279,28 @@ func init() {
 // ---- model mode: QueryContext / Rows ----
 
 type sqlCursor struct {
-	rows []value // each a []Val (interpreted value)
-	pos  int
-	err  value
+	rows  []value // each a []Val (interpreted value)
+	pos   int
+	err   value
+	havoc bool
+	done  bool
 }
 
 func init() {
 	query := func(fr *frame, args []value) value {
 		if !X.SQLModel {
-			panic(abortPath{"unsupported: QueryContext outside SQL model mode"})
+			// tier 1: the query fails, or answers 0..2 arbitrary rows
+			event("Query:%s", normSQL(args[2]))
+			if X.choose(2) == 1 {
+				event("Query:err")
+				return tuple{(*value)(nil), fr.i.newErr("injected fault: Query")}
+			}
+			rows := zeroPtr(fr.i, "database/sql", "Rows").(*value)
+			if X.sqlCursors == nil {
+				X.sqlCursors = map[*value]*sqlCursor{}
+			}
+			X.sqlCursors[rows] = &sqlCursor{pos: -1, havoc: true}
+			return tuple{rows, iface{}}
 		}
 		r := call(fr.i, fr, 0, sqlFn(fr, "Query"), []value{args[2], args[3]}).(tuple)
 		event("Query:%s", normSQL(args[2]))
@@ -282,15 +327,42 @@ func init() {
 	symExternals["(*database/sql.Rows).Next"] = func(fr *frame, args []value) value {
 		c := cur(args)
 		c.pos++
+		if c.havoc {
+			if c.done || c.pos >= 2 || X.choose(2) == 0 {
+				c.done = true
+				return false
+			}
+			return true
+		}
 		return c.pos < len(c.rows)
 	}
 	symExternals["(*database/sql.Rows).Scan"] = func(fr *frame, args []value) value {
 		c := cur(args)
+		if c.havoc {
+			if X.choose(2) == 1 {
+				event("RowsScan:err")
+				return fr.i.newErr("injected fault: Rows.Scan")
+			}
+			for _, d := range args[1].([]value) {
+				it := d.(iface)
+				pt := it.t.Underlying().(*types.Pointer)
+				if !havocScanInto(pt.Elem(), it.v.(*value)) {
+					panic(abortPath{"sql stub: Rows.Scan into unsupported type " + pt.Elem().String()})
+				}
+			}
+			return iface{}
+		}
 		if c.pos < 0 || c.pos >= len(c.rows) {
 			panic("sql model: Scan without Next")
 		}
 		return call(fr.i, fr, 0, sqlFn(fr, "ScanInto"), []value{args[1], c.rows[c.pos]})
 	}
-	symExternals["(*database/sql.Rows).Err"] = func(fr *frame, args []value) value { return iface{} }
+	symExternals["(*database/sql.Rows).Err"] = func(fr *frame, args []value) value {
+		if c := cur(args); c.havoc && X.choose(2) == 1 {
+			event("RowsErr:err")
+			return fr.i.newErr("injected fault: Rows.Err")
+		}
+		return iface{}
+	}
 	symExternals["(*database/sql.Rows).Close"] = func(fr *frame, args []value) value { return iface{} }
 }
